@@ -17,6 +17,9 @@ CLAIMED = {
  "C05": dict(engine="E1", design="§5 C05", technique="bounded exhaustive enumeration of type expressions, real pipeline + type-tree extractor vs structural/category reference model",
      text="All unary constructor chains (Vec, array, slice, Option, Box, &) of depth ≤ 2 (quick) / ≤ 4 (thorough) over 17 leaves, every smart-pointer name and path form, maps and user generics with chain arguments, const types; × 4 positions × 6 languages × 2 configurations × type-mapping tables (~1.3M executions thorough). The type text at the use site is parsed back to a tree and compared structurally; primitives are judged by JSON category and value range.",
      note="Trusted: target primitive ranges from language references; TypeScript optionality is judged by C04, not here."),
+ "C07": dict(engine="E1+S-cli", design="§5 C07", technique="exhaustive singles/pairs/triples over a grammar-edge alphabet run in-process under catch_unwind, plus process-level fault enumeration with a watchdog", category="model_checking",
+     text="A baseline program plus every single edge symbol (≈100 symbols: container names without arguments, empty tuple structs/variants, odd attribute lists, underscore-only and non-ASCII identifiers under every rename_all rule, bare `use`, consts, odd serialized_as, #[typeshare] on unsupported item kinds …) at every position × 6 languages × single/multi × 3 configurations, every unordered pair and (thorough) triple; no execution may unwind. The real binary is then run under a watchdog on every symbol and on 17 file-level/argument faults × languages × modes: it must terminate with exit 0 and output, or a non-zero status and a diagnostic (naming the file for parse-stage failures), never panic or hang.",
+     note="The alphabet is a fixed list; arbitrary Rust is not enumerable. Watchdog hits are re-run with a longer limit before they are believed. Error-path schedules are covered with C06's protocol model."),
  "C08": dict(engine="E1+S-cli", design="§5 C08", technique="bounded exhaustive planting of unsupported constructs under all carrier chains and positions; parser verdict + differential under skip; CLI runs for the no-output clause",
      text="6 unsupported types under every carrier chain of depth ≤ 2 (quick) / ≤ 3 (thorough; depth 4–5 with ≤ 2 distinct constructors) over 9 constructors at 9 positions × 3 skip states, plus 17 structural constructs × 6 languages; the real parser must record an error, and with the construct under a skip marker the output must equal that of the program with the member deleted. The real binary is run on 9 constructs × languages × single/multi × absent/pre-existing output: it must exit with an error naming the file and leave the output location byte- and mtime-identical.",
      note="Representable integer constant expressions (-5, (9)) may be accepted if the generated value is right. The CLI family uses a fixed list of constructs."),
